@@ -2,7 +2,7 @@
    Only ExtrOcamlBasic: bool/option/unit/list/prod/sumbool/sumor are mapped to OCaml's own types,
    andb/orb are inlined; Z, positive, N, nat remain the extracted inductive types. *)
 Require Import Extraction ExtrOcamlBasic.
-Require Import Base Fp GenLeaf PlaModel PlaSpec IndexModel DynModel DynSpec DynExec VariantsModel MappedModel MultiModel CompressedModel.
+Require Import Base Fp GenLeaf PlaModel PlaSpec IndexModel DynModel DynSpec DynExec VariantsModel MappedModel MultiModel CompressedModel CmpCertDefs.
 Extraction Language OCaml.
 Extraction "model.ml"
   Base.lb Base.ub Base.lb_range Base.ub_range Base.sortedb Base.ssortedb
@@ -22,4 +22,5 @@ Extraction "model.ml"
   MultiModel.multi_build MultiModel.multi_range MultiModel.multi_contains MultiModel.bigmin MultiModel.box_zcontains
   MultiModel.encode MultiModel.decode
   CompressedModel.compressed_build CompressedModel.compressed_search CompressedModel.cl_get_intercept
-  DynSpec.am_insert DynSpec.am_erase DynSpec.am_find DynSpec.am_lower_bound DynSpec.am_from DynSpec.am_range DynSpec.am_bulk DynSpec.inv_b.
+  CmpCertDefs.cmp_cert_b CmpCertDefs.cmp_struct_b CmpCertDefs.cmp_cert_failing
+  DynSpec.am_insert DynSpec.am_erase DynSpec.am_find DynSpec.am_lower_bound DynSpec.am_from DynSpec.am_range DynSpec.am_bulk DynSpec.inv_b DynSpec.pgm_keys_ok_b.
